@@ -252,6 +252,8 @@ def check_files(layout_i, clients, hname, bulk, batch_mult, pct, conflicts, res,
         if has_meta:
             return
         op.update({"conflicts": conflicts[0], "on-conflict": conflicts[1], "conflict-probability": conflicts[2]})
+        if len(conflicts) > 3:
+            op["recency"] = conflicts[3]
     random.seed(1234)
     v = None
     try:
@@ -478,7 +480,9 @@ def file_cases(tier):
         for clients in (1, 2, 3):
             for hname in ("1x1", "1x2"):
                 for bulk in (1, 3):
-                    for conflicts in (("sequential", "index", 25), ("sequential", "update", 100), ("random", "index", 100), ("random", "update", 25)):
+                    # (recency > 0 biases the choice towards recently emitted ids; small values make extreme draws likely)
+                    for conflicts in (("sequential", "index", 25), ("sequential", "update", 100), ("random", "index", 100), ("random", "update", 25),
+                                      ("random", "update", 50, 0.02), ("random", "update", 25, 0.05), ("random", "index", 50, 0.2), ("random", "update", 50, 1.0)):
                         yield (li, clients, hname, bulk, 1, 100, conflicts)
 
 
